@@ -647,19 +647,26 @@ bool pd_ext_c(int nt, char **tok)
         return true;
     }
     if (!strcmp(c, "answer")) {
+        /* three rounds; in each, every request registered at a sink is answered once (answering a request
+         * again is what a provider may do at any time; a structure its owner registered again is a new one) */
         int n = 0;
-        for (int i = 0; i < MAXOBJ; i++) {
-            if (!sinks[i].used || sinks[i].dead) continue;
-            for (int k = 0; k < sinks[i].nregs; k++) {
-                struct urequest *r = sinks[i].regs[k];
-                bool done = false;
-                for (int a = 0; a < nanswered; a++) if (answered[a] == r) done = true;
-                if (done) continue;
-                if (nanswered < 256) answered[nanswered++] = r;
-                provide(r, sinks[i].name);
-                n++;
-                k = -1;            /* the list may have changed: rescan */
+        for (int round = 0; round < 3; round++) {
+            int before = n;
+            nanswered = 0;         /* a structure registered again by its owner is a new request */
+            for (int i = 0; i < MAXOBJ; i++) {
+                if (!sinks[i].used || sinks[i].dead) continue;
+                for (int k = 0; k < sinks[i].nregs; k++) {
+                    struct urequest *r = sinks[i].regs[k];
+                    bool done = false;
+                    for (int a = 0; a < nanswered; a++) if (answered[a] == r) done = true;
+                    if (done) continue;
+                    if (nanswered < 256) answered[nanswered++] = r;
+                    provide(r, sinks[i].name);
+                    n++;
+                    k = -1;            /* the list may have changed: rescan */
+                }
             }
+            if (n == before) break;
         }
         printf("ret 0 %d\n", n);
         return true;
